@@ -11,7 +11,7 @@ buffer (`bytes.Buffer`). `B -` for operations only tex.Buffer has; `B *` once th
   init:  `new` | `news <size>` | `newb <bytes> <extraCap>`
   ops:   `write <bytes>` `writestr <bytes>` `writebyte <hh>` `writerune <int>` `read <k>` `readbyte` `readrune`
          `unreadbyte` `unreadrune` `next <n>` `truncate <n>` `reset` `grow <n>`
-         `readfrom <bytes> eof|err|neg|over <tail> <k>*` `writeto all|over|short|err [k]`
+         `readfrom <bytes> eof|err|neg|over[+] <tail> <k>*` (`+` = greedy after the chunks) `writeto all|over|short|err [k]`
          `len` `bytes` `string` `cap` `off` `rewrite <pos> <bytes>`
   <bytes> ::= `-` | hex | `x<a>:<n>` (n bytes (a + 13 i) mod 256)
 Byte strings longer than 24 are printed as `#<len>:<fnv1a-64>`.
@@ -107,10 +107,12 @@ def parseOp (ws : List String) : Option Op :=
   | ["grow", n] => (parseInt? n).map .grow
   | "readfrom" :: b :: t :: tail :: ks => do
     let d ← parseBytes b
+    let greedy := t.endsWith "+"
+    let t := if greedy then String.ofList t.toList.dropLast else t
     let term ← (match t with | "eof" => some RTerm.eof | "err" => some .err | "neg" => some .neg | "over" => some .over | _ => none)
     let tail ← parseNat? tail
     let ks ← ks.mapM parseNat?
-    pure (.readFrom ⟨d, ks, tail, term⟩)
+    pure (.readFrom ⟨d, ks, tail, term, greedy⟩)
   | ["writeto", "all"] => some (.writeTo .all)
   | ["writeto", "over"] => some (.writeTo .over)
   | ["writeto", "short", k] => (parseNat? k).map (fun k => .writeTo (.short k))
